@@ -775,6 +775,19 @@ def make_calls() -> list[CallSpec]:
                        'b': [('s', 1, 1, lambda: sc.array(dims=['r'], values=['p q', "it's"]))]}))
     C.append(CallSpec('io.cif.Chunk + write', lambda d: cif.Chunk(d).write(io.StringIO()),
                       {'d': [('dict', 1, 1, lambda: {'a.b': sc.scalar(1.5, variance=0.04, unit='m'), 'a.c': 'text'})]}))
+    # the `schema` argument of the CIF objects (CIFSchema | Iterable[CIFSchema]) in every container a caller may hold
+    my_schema = cif.CIFSchema(name='myCIF', version='1.0', location='https://example.org/my.dic')
+    schema_slot = [('single', 1, 1, lambda: cif.PD_SCHEMA), ('list', 2, 1, lambda: [cif.PD_SCHEMA, my_schema]),
+                   ('set', 3, 1, lambda: {cif.PD_SCHEMA, my_schema}), ('set with core', 4, 1, lambda: {cif.CORE_SCHEMA, my_schema}),
+                   ('tuple', 5, 1, lambda: (my_schema,))]
+
+    def with_schema(schema):
+        ch = cif.Chunk({'a.b': 'x'}, schema=schema)
+        lo = cif.Loop({'x.a': sc.array(dims=['r'], values=[1.0, 2.0])}, schema=schema)
+        bl = cif.Block('b', [ch, lo], schema=schema)
+        cif.save_cif(io.StringIO(), bl)
+        return sorted(s_.name for s_ in bl.schema)
+    C.append(CallSpec('io.cif.Chunk / Loop / Block(schema=...) + save_cif', with_schema, {'schema': schema_slot}))
     C += _sqw_calls()
     return C
 
